@@ -168,3 +168,10 @@ def _freeze(v):
     if isinstance(v, list):
         return tuple(_freeze(x) for x in v)
     return v
+
+
+def errf(f):
+    return {"x": "err", "f": f}
+
+
+DFLT = {"x": "dflt"}
